@@ -149,6 +149,9 @@ def native_replay(h, info, repo, scratch):
     if scn.get('fam') in ('clear', 'remove', 'drain', 'splice', 'clone', 'insert', 'lazy'):
         # user code (Drop / Clone / replacement iterator) panicking at its k-th invocation
         variants += [dict(scn, panic_at=k) for k in (1, 2, 3)]
+    if scn.get('fam') in ('clear', 'remove', 'drain', 'splice', 'insert') and not scn.get('zst'):
+        # the same operation on an element type without drop glue (destructor function absent)
+        variants.append(dict(scn, nodrop=1))
     if scn.get('misreport'):
         variants = [dict(scn, report_delta=d) for d in (-1, 1, -2, 2)]
     for v in variants:
